@@ -2,8 +2,10 @@ package scen
 
 import (
 	"fmt"
+	"strings"
 	"sync"
 
+	"berty.tech/go-orbit-db/stores/replicator"
 	"verifmc/explore"
 )
 
@@ -66,6 +68,14 @@ func installStatusMonitor(w *Writers, prop string) {
 			if len(vals) != n {
 				continue // log not complete: the statement does not apply
 			}
+			if vs, ok := s.Replicator().(replicator.VerifStater); ok {
+				if r := vs.VerifState(); len(r.Added) > 0 || len(r.Fetching) > 0 || r.BufferLen > 0 || r.QueueLen > 0 {
+					continue // replication in progress (fetches parked by the explorer): not at rest
+				}
+			}
+			if len(w.Net.Gates.Parked()) > 0 {
+				continue
+			}
 			maxT := 0
 			for _, e := range vals {
 				if t := e.GetClock().GetTime(); t > maxT {
@@ -91,7 +101,7 @@ func installStatusMonitor(w *Writers, prop string) {
 func init() {
 	explore.Register(&explore.CheckDef{
 		ID: "C19", Level: "model_checking",
-		Rule: "explicit-state DFS over histories of local writes, merges, announcements to an observer (sync/topic/direct), restarts with Load and snapshot save/load, single- and multi-writer, one database per instance; (progress,max) sampled synchronously inside every event-bus emission and at every quiescent state must never decrease while the store is open; in every quiescent state with a complete log progress == max and max Lamport time <= value <= entry count. Non-trivial = distinct states in which some replica holds entries of two writers.",
+		Rule: "explicit-state DFS over histories of local writes, merges, announcements to an observer (sync/topic/direct), restarts with Load and snapshot save/load, single- and multi-writer, one database per instance; gated-merge units park every block fetch of a merging replica and enumerate the release orders together with a local write and a duplicate announcement in flight; (progress,max) sampled synchronously inside every event-bus emission and at every quiescent state must never decrease while the store is open; in every quiescent state with a complete log progress == max and max Lamport time <= value <= entry count. Non-trivial = distinct states in which some replica holds entries of two writers.",
 		Units: func(tier string) []explore.Unit {
 			var u []explore.Unit
 			d := 4
@@ -104,6 +114,14 @@ func init() {
 			u = append(u, c01Units(C01Arg{DFSArg: DFSArg{Kind: "eventlog", Writers: 2, Depth: d + 3, Alpha: "one", SD: 3}}, 16)...)
 			u = append(u, c01Units(C01Arg{DFSArg: DFSArg{Kind: "eventlog", Writers: 2, Depth: d, Alpha: "one"}, Observer: true, Routes: []string{"sync", "direct"}, Reload: true, Snapshot: true}, 16)...)
 			u = append(u, c01Units(C01Arg{DFSArg: DFSArg{Kind: "keyvalue", Writers: 3, Depth: d - 1, Alpha: "tiny"}, Reload: true}, 16)...)
+			// status updates from load-added, per-entry progress and local writes in every order
+			gb := 2
+			if tier == "thorough" {
+				gb = 4
+			}
+			for _, sh := range []string{"own0-chain3", "own2-chain3", "own2-fork", "own1-chain2x2"} {
+				u = append(u, gmUnits(GMArg{Kind: "eventlog", Shape: sh, Writes: 1, Dups: 1, Bound: gb}, 8, "G")...)
+			}
 			return u
 		},
 		Budget: func(tier string) float64 {
@@ -113,6 +131,10 @@ func init() {
 			return 200
 		},
 		RunUnit: func(c *explore.Ctx) {
+			if strings.HasPrefix(c.Spec.Unit.Arg, "G") {
+				runGatedMerge(c, c.Spec.Unit.Arg[1:], "C19", func(w *Writers) { installStatusMonitor(w, "C19") })
+				return
+			}
 			runC01Unit(c, "C19", func(w *Writers, a C01Arg) { installStatusMonitor(w, "C19") })
 		},
 		Assumptions: []string{
